@@ -31,6 +31,11 @@ type c08Rules struct {
 	File    []string `json:"emails_file_lines,omitempty"` // nil = no file configured
 	HasFile bool     `json:"emails_file,omitempty"`
 	Groups  []string `json:"allowed_groups,omitempty"`
+	// GroupsVia names the configuration path of the allowed groups (and of the htpasswd user groups):
+	// "" = command line flags, "struct" = the options structure, "toml" = configuration file,
+	// "alpha" = alpha configuration file (see c08_inputs_test.go).
+	GroupsVia    string `json:"allowed_groups_via,omitempty"`
+	ReverseProxy bool   `json:"reverse_proxy,omitempty"`
 }
 
 func (r *c08Rules) String() string {
@@ -38,8 +43,13 @@ func (r *c08Rules) String() string {
 	if r.HasFile {
 		s += " file=[" + strings.Join(r.File, "|") + "]"
 	}
-	if len(r.Groups) > 0 {
+	if r.GroupsVia != "" {
+		s += fmt.Sprintf(" groups(via %s)=%q", r.GroupsVia, r.Groups)
+	} else if len(r.Groups) > 0 {
 		s += " groups=" + strings.Join(r.Groups, ",")
+	}
+	if r.ReverseProxy {
+		s += " reverse-proxy"
 	}
 	return s
 }
@@ -169,9 +179,39 @@ func c08Intersect(allowed, have []string) bool {
 	return false
 }
 
-// c08GroupAllowed: no allowed groups configured, or exact-string intersection.
-func c08GroupAllowed(allowed, have []string) bool {
-	return len(allowed) == 0 || c08Intersect(allowed, have)
+// c08GroupAllowed: no allowed groups configured, or exact-string intersection of whole names
+// (a configured name is one name, whatever characters it is made of). Whether a configured empty
+// name counts as a configured group is not said anywhere: both readings.
+func c08GroupAllowed(allowed, have []string) c08V {
+	var nonEmpty []string
+	for _, a := range allowed {
+		if a != "" {
+			nonEmpty = append(nonEmpty, a)
+		}
+	}
+	v1 := len(allowed) == 0 || c08Intersect(allowed, have)
+	v2 := len(nonEmpty) == 0 || c08Intersect(nonEmpty, have)
+	return c08V{v1 && v2, v1 || v2}
+}
+
+// c08QueryGroups: the allowed_groups items of the auth-only query against the session's groups.
+// The documentation says "comma separated list of allowed groups": items are whole names compared
+// verbatim; whether blanks around an item (or around a group) belong to the name is left open, so
+// the readings verbatim / items trimmed / both trimmed are all admitted.
+func c08QueryGroups(items, groups []string) c08V {
+	trim := func(in []string, dropEmpty bool) (out []string) {
+		for _, s := range in {
+			if t := strings.TrimSpace(s); t != "" || !dropEmpty {
+				out = append(out, t)
+			}
+		}
+		return out
+	}
+	ti := trim(items, true)
+	r1 := len(items) == 0 || c08Intersect(items, groups)
+	r2 := len(ti) == 0 || c08Intersect(ti, groups)
+	r3 := len(ti) == 0 || c08Intersect(ti, trim(groups, false))
+	return c08V{r1 && r2 && r3, r1 || r2 || r3}
 }
 
 // c08Items: union of the comma-separated non-empty items of every occurrence of key.
@@ -235,7 +275,7 @@ func c08AuthOnly(rawQuery, email string, groups []string) (v c08V, why string) {
 		bad := false
 		gi, m := c08Items(rawQuery, "allowed_groups", splitFirst)
 		bad = bad || m
-		g := c08B(len(gi) == 0 || c08Intersect(gi, groups))
+		g := c08QueryGroups(gi, groups)
 		ei, m := c08Items(rawQuery, "allowed_emails", splitFirst)
 		bad = bad || m
 		e := c08Yes
@@ -300,19 +340,19 @@ func c08AuthOnly(rawQuery, email string, groups []string) (v c08V, why string) {
 // c08Exp is the expectation for one presentation of a credential.
 type c08Exp struct {
 	Email  c08V
-	Groups bool
+	Groups c08V
 	AO     c08V
 	AOWhy  string
 	Canon  bool
 }
 
-func (x c08Exp) global() c08V { return x.Email.and(c08B(x.Groups)) }
+func (x c08Exp) global() c08V { return x.Email.and(x.Groups) }
 func (x c08Exp) served() c08V { return x.global().and(x.AO) }
 func (x c08Exp) why() string {
 	switch {
 	case !x.Email.L:
 		return "email-rule"
-	case !x.Groups:
+	case !x.Groups.L:
 		return "allowed-groups"
 	case !x.AO.L:
 		return "authonly-" + x.AOWhy
@@ -516,9 +556,14 @@ type c08Case struct {
 	NoClaim  bool      `json:"groups_claim_absent,omitempty"`
 	HtGroups []string  `json:"htpasswd_user_groups,omitempty"`
 	Target   string    `json:"target"` // "" = the case is the login itself
-	Redis    bool      `json:"redis,omitempty"`
-	Expected string    `json:"expected"`
-	Observed string    `json:"observed"`
+	// the request that presents the credential (defaults: GET, no body, no further headers)
+	Method   string      `json:"method,omitempty"`
+	Body     string      `json:"body,omitempty"`
+	Hdr      [][2]string `json:"extra_headers,omitempty"`
+	Variant  string      `json:"variant,omitempty"`
+	Redis    bool        `json:"redis,omitempty"`
+	Expected string      `json:"expected"`
+	Observed string      `json:"observed"`
 }
 
 func (cs *c08Case) key() string {
@@ -526,7 +571,29 @@ func (cs *c08Case) key() string {
 	if cs.Login != nil {
 		l = cs.Login.String()
 	}
-	return fmt.Sprintf("%s|%s|%s|%s|%q|%q|%v|%q|%s|%v", cs.Part, cs.Source, l, cs.Rules.String(), cs.Email, cs.Groups, cs.NoClaim, cs.HtGroups, cs.Target, cs.Redis)
+	k := fmt.Sprintf("%s|%s|%s|%s|%q|%q|%v|%q|%s|%v", cs.Part, cs.Source, l, cs.Rules.String(), cs.Email, cs.Groups, cs.NoClaim, cs.HtGroups, cs.Target, cs.Redis)
+	if cs.Method != "" || cs.Body != "" || len(cs.Hdr) > 0 {
+		k += fmt.Sprintf("|%s|%q|%q", cs.Method, cs.Body, cs.Hdr)
+	}
+	return k
+}
+
+func (cs *c08Case) reqLine() string {
+	m := cs.Method
+	if m == "" {
+		m = "GET"
+	}
+	s := m + " " + cs.Target
+	if cs.Variant != "" {
+		s += " [" + cs.Variant + "]"
+	}
+	if len(cs.Hdr) > 0 {
+		s += fmt.Sprintf(" headers %q", cs.Hdr)
+	}
+	if cs.Body != "" {
+		s += fmt.Sprintf(" body %q", cs.Body)
+	}
+	return s
 }
 
 const c08Host = "app.example.com"
@@ -552,6 +619,7 @@ type c08Env struct {
 	users  map[string]string
 	seen   map[string]int
 	redis  *world.Redis
+	last   c08Obs // observation of the most recent presentation (exec)
 }
 
 func newC08Env(c *Ctx) *c08Env {
@@ -607,17 +675,30 @@ func (e *c08Env) build(r *c08Rules, cs *c08Case) (*Proxy, error) {
 		}
 		flags = append(flags, "--authenticated-emails-file="+e.file)
 	}
-	for _, g := range r.Groups {
-		flags = append(flags, "--allowed-group="+g)
+	if r.ReverseProxy {
+		flags = append(flags, "--reverse-proxy=true")
 	}
-	if strings.HasPrefix(cs.Source, "htpasswd") {
+	ht := strings.HasPrefix(cs.Source, "htpasswd")
+	if ht {
 		flags = append(flags, "--htpasswd-file="+e.htfile)
-		for _, g := range cs.HtGroups {
-			flags = append(flags, "--htpasswd-user-group="+g)
-		}
 	}
 	if cs.Source == "bearer" {
 		flags = append(flags, "--skip-jwt-bearer-tokens=true")
+	}
+	if r.GroupsVia != "" {
+		var htg []string
+		if ht {
+			htg = cs.HtGroups
+		}
+		return c08BuildVia(r.GroupsVia, flags, r.Groups, htg)
+	}
+	for _, g := range r.Groups {
+		flags = append(flags, "--allowed-group="+g)
+	}
+	if ht {
+		for _, g := range cs.HtGroups {
+			flags = append(flags, "--htpasswd-user-group="+g)
+		}
 	}
 	cfg := &ProxyCfg{Flags: flags}
 	if cs.Redis {
@@ -640,12 +721,23 @@ func (o c08Obs) String() string {
 }
 
 func (e *c08Env) request(px *Proxy, jar *world.Jar, target string, hdr [][2]string) c08Obs {
+	return e.requestAs(px, jar, &c08Case{Target: target}, hdr)
+}
+
+// requestAs presents the credential with the method, body and further headers of the case.
+func (e *c08Env) requestAs(px *Proxy, jar *world.Jar, cs *c08Case, hdr [][2]string) c08Obs {
 	b := newBrowser(px, "http", c08Host)
 	if jar != nil {
 		b.Jar = jar.Clone()
 	}
 	e.up.Take()
-	resp := b.Get(target, hdr...)
+	method := cs.Method
+	if method == "" {
+		method = "GET"
+	}
+	r := b.Req(method, cs.Target, append(append([][2]string{}, hdr...), cs.Hdr...)...)
+	r.Body = cs.Body
+	resp := b.Do(r)
 	o := c08Obs{Status: resp.Status, Hits: len(e.up.Take())}
 	if resp.Panic != nil {
 		o.Panic = fmt.Sprint(resp.Panic)
@@ -730,7 +822,8 @@ func (e *c08Env) exec(cs *c08Case, pre *c08Pre) (key, msg, class string) {
 			return "", "build(request rules): " + err.Error(), "invalid-config"
 		}
 	}
-	o := e.request(px, jar, cs.Target, hdr)
+	o := e.requestAs(px, jar, cs, hdr)
+	e.last = o
 	x := c08Expect(&cs.Rules, email, groups, cs.Target, false)
 	cs.Expected, cs.Observed = x.String(), o.String()
 	sv := x.served()
@@ -759,7 +852,7 @@ func (e *c08Env) exec(cs *c08Case, pre *c08Pre) (key, msg, class string) {
 		class = "ambiguous"
 	}
 	if key != "" {
-		msg = fmt.Sprintf("%s session e-mail %q groups %q presented to [%s] on GET %s: expected %s, observed %s", cs.Source, email, groups, cs.Rules.String(), cs.Target, cs.Expected, cs.Observed)
+		msg = fmt.Sprintf("%s session e-mail %q groups %q presented to [%s] on %s: expected %s, observed %s", cs.Source, email, groups, cs.Rules.String(), cs.reqLine(), cs.Expected, cs.Observed)
 	}
 	return key, msg, class
 }
@@ -1091,12 +1184,14 @@ func init() {
 	register(&checkDef{
 		id:    "C08",
 		level: "exploration",
-		rule:  "full product identities (e-mail local parts x domains incl. look-alikes, case, trailing dot, several '@'; group lists) x rule configurations (e-mail domain sets x e-mails files x allowed-group sets) x {proxied, auth-only, userinfo} with sessions minted under allow-all rules and presented to every configuration (= rule change after login), a login attempt of every identity under every configuration, auth-only query forms x identities, all ordered pairs of a 6-rule alphabet (cookie and Redis store, e-mails file rewritten), htpasswd (form and Basic) and bearer-token sessions; reference model from the statement and DESIGN Appendix B with strictest/loosest admissible readings; non-trivial = distinct case in which a valid credential (or a completed provider login) must be refused because a rule bites",
+		rule:  "full product identities (e-mail local parts x domains incl. look-alikes, case, trailing dot, several '@'; group lists) x rule configurations (e-mail domain sets x e-mails files x allowed-group sets) x {proxied, auth-only, userinfo} with sessions minted under allow-all rules and presented to every configuration (= rule change after login), a login attempt of every identity under every configuration, auth-only query forms x identities, all ordered pairs of a 6-rule alphabet (cookie and Redis store, e-mails file rewritten), htpasswd (form and Basic) and bearer-token sessions; auth-only requests as methods {GET,HEAD,POST,PUT,PATCH,DELETE} x carriers (form, multipart, text, JSON bodies; forwarded-URI headers) x payloads that widen / narrow / erase each constraint key with values derived from the identity x query constraints x identities x configurations, judged by the reference predicate of the query AND by equality of the answer class with the plain GET of the same query; group names as opaque strings: name alphabet (commas, blanks, '=', quotes, case, empty, prefixes, distinguished names and their components) configured x carried by the session x configuration path {options structure, configuration file, alpha configuration file, flag} x {login, later request, htpasswd form login / Basic, auth-only allowed_groups item}; reference model from the statement and DESIGN Appendix B with strictest/loosest admissible readings; non-trivial = distinct case in which a valid credential (or a completed provider login) must be refused because a rule bites",
 		assumptions: []string{
 			"the converse (a passing credential is served / a passing login gets a session) is asserted only for canonical lower-case addresses with exactly one '@'",
 			"apex under '.d'/'*.d', trailing dots, addresses without '@', case in auth-only items, '%2C' in auth-only items, undecodable query pairs, '*' as auth-only domain: both readings admissible, counted as ambiguous",
 			"a rule change is modelled by a second proxy built with the same cookie secret and the other rules (the e-mails file is the same path, rewritten before the rebuild); an in-process reload of the e-mails file is covered by C20",
 			"refused = no upstream hit and status 401 or 403; served = upstream hit or 2xx; cookie cleared = no _oauth2_proxy / _oauth2_proxy_N cookie left in an RFC 6265 jar after the response",
+			"a configured empty group name (counts as a configured group or is ignored), blanks around an item of the auth-only allowed_groups list (part of the name or not): both readings admissible, counted as ambiguous; group lists whose names contain a comma, a double quote or a backslash are not given through the flag (the flag is a comma list with its own quoting)",
+			"the answer class of an auth-only request (served / refused, cookie cleared or not) must not depend on the method, the body or on headers carrying look-alike parameters; the status code inside a class is not compared",
 			"e-mails file contents are restricted to documented forms (one address per line, comment and blank lines); addresses with quoted local parts are not put into the file",
 		},
 		shards: func(tier string) int { return 16 },
@@ -1109,11 +1204,14 @@ func init() {
 			e := newC08Env(c)
 			defer e.close()
 			e.c08Main()
+			e.c08Inputs()
+			e.c08GroupNames()
 		},
 		post: func(c *Ctx) {
 			need := []string{"expect_serve", "expect_refuse-global", "expect_refuse", "expect_login-ok", "expect_login-refuse", "ambiguous",
 				"part_sessions", "part_login", "part_login-synthetic", "part_authonly", "part_history", "part_htpasswd", "part_bearer",
 				"revoked_by_rule_change", "sessions_minted_noncanonical_email", "configs_rejected_by_validation", "distinct_nontrivial"}
+			need = append(need, c08InputsNeed...)
 			sort.Strings(need)
 			for _, k := range need {
 				if c.Counters[k] == 0 {
@@ -1137,6 +1235,12 @@ func init() {
 			key, msg, class := e.exec(&cs, nil)
 			if key != "" {
 				c.Violate(key, msg, 1, cs)
+			}
+			if cs.Part == "authonly-inputs" {
+				if rk, rmsg := e.execRel(&cs, nil); rk != "" {
+					c.Violate(rk, rmsg, 1, cs)
+					msg += " " + rmsg
+				}
 			}
 			return fmt.Sprintf("class=%s expected{%s} observed{%s} %s", class, cs.Expected, cs.Observed, msg)
 		},
